@@ -2,7 +2,12 @@
    history.  Input line: tokens separated by ';'
      C <l2on>                          first token: 1 = an L2 is configured
      P <k> <etag> <mtime_ns> <hex>     new-object write (PutMode::Create)        -> ok | E5
-     E <k>                             TieredCache::invalidate(k): both tiers     -> -
+     E <k>                             TieredCache::invalidate(k) was called        -> -
+                                       (no model event: whether and when the entry is
+                                       gone is the eviction oracle's business and is
+                                       read off the <obs> of the following reads; foyer
+                                       was observed to serve a key again after `remove`
+                                       when its flush to disk was still in flight)
      R <req> <obs>                     sequential read                            -> <res>@<tier>
      S <req> <obs>                     a concurrent reader arrives and runs up to
                                        its inner-store request (or completes)     -> <res>@<tier> | parked@<tier>
@@ -127,7 +132,7 @@ let run_line (line : string) : string =
         let (_, rc) = store_put (!st).s_store k o in
         ev (EPut (k, o));
         (match rc with Done _ -> "ok" | Failed c -> "E" ^ string_of_n c | Panic -> "PANIC" | Hang -> "HANG")
-    | ["E"; k] -> let k = n_of_string k in ev (EEvict1 k); ev (EEvict2 k); "-"
+    | ["E"; _] -> "-"
     | "R" :: rest ->
         let (q, rest) = parse_req rest in
         let obs = (match rest with [o] -> o | _ -> failwith "bad R") in
